@@ -10,8 +10,9 @@ correspondence: the same tree, rooted at the reference bus, is run through the L
   must agree to 1e-9 (float summation order over the children of a bus differs, nothing else).
 oracle (implementation only):
   ac.complex     agreement with an independent complex current-summation solution iterated to
-                 convergence (voltages, angles, line losses), within 1e-6 pu, whenever that
-                 solution has all voltages >= 0.85 pu;
+                 convergence (voltages, angles, line losses) whenever that solution has all
+                 voltages >= 0.85 pu: the same routine run to convergence (maxit=60) within 1e-8 pu,
+                 the five sweeps the simulator uses within 2e-3 pu (ac.sweeps5);
   ac.balance     injection at the reference bus (from Line.get_line_load) = load - production + losses;
   ac.loss        losses non-negative;
   meta.order / meta.flip / meta.reroot / meta.repeat
@@ -29,11 +30,12 @@ from . import net
 PROP = "C15"
 LEVEL = "proof"
 ASSUMPTIONS = [
-    "PARTIAL: the theorems are about the sweep equations over the reals (exact voltage-drop identity, loss = r|I|^2 >= 0, accumulated load / loss sums); that five sweeps from a flat start are within 1e-6 pu of the fixed point in the regime V >= 0.85 pu is decided per generated network against the independent complex solution, not proved (convergence rate of the iteration is analysis over floats)",
+    "PARTIAL: the theorems are about the sweep equations over the reals (exact voltage-drop identity, loss = r|I|^2 >= 0, an AC solution is a fixed point, accumulated load / loss sums); that the iteration converges, and that the five sweeps the simulator runs from a flat start are within 2e-3 pu of the fixed point in the regime V >= 0.85 pu (measured worst 9e-4), is decided per generated network against the independent complex solution, not proved",
     "Float arithmetic, sqrt and atan2 of the Lean runtime and of numpy are IEEE double operations and are trusted to agree to 1e-9 on these inputs",
 ]
 TOL_MODEL = 1e-9
-TOL_AC = 1e-6
+TOL_AC = 1e-8           # converged implementation (maxit=60) vs the independent complex solution
+TOL_5 = 2e-3            # the 5 sweeps the simulator actually runs vs the fixed point (measured worst 9e-4 pu at V_min ~ 0.9 over 4000 networks)
 ZB = 12.66 ** 2          # base impedance of the default v_ref / s_ref (Line.r_pu = r / ZB)
 
 
@@ -177,26 +179,39 @@ def handler(case):
     regime = ref is not None and min(abs(v) for v in ref["V"].values()) >= 0.85
     vmin = min(abs(v) for v in ref["V"].values()) if ref else None
     if regime:
+        # (i) the sweep equations solve the AC equations: the same routine iterated to convergence
+        ssc, bc, lc = build(case)
+        run_bfs_load_flow(ssc, maxit=60)
+        conv = result(bc, lc)
         for i in range(n):
-            if abs(base["vm"][i] - abs(ref["V"][i])) > TOL_AC or abs(base["va"][i] - cmath.phase(ref["V"][i])) > TOL_AC:
-                viols.append(("ac.complex", f"bus B{i}: computed voltage {base['vm'][i]:.9f} pu / {base['va'][i]:.9f} rad, independent complex solution {abs(ref['V'][i]):.9f} / {cmath.phase(ref['V'][i]):.9f} (reference bus B{s}, lowest voltage {vmin:.3f})"))
+            if abs(conv["vm"][i] - abs(ref["V"][i])) > TOL_AC or abs(conv["va"][i] - cmath.phase(ref["V"][i])) > TOL_AC:
+                viols.append(("ac.complex", f"bus B{i}: converged voltage {conv['vm'][i]:.10f} pu / {conv['va'][i]:.10f} rad, independent complex solution {abs(ref['V'][i]):.10f} / {cmath.phase(ref['V'][i]):.10f} (reference bus B{s}, lowest voltage {vmin:.3f})"))
                 break
         for l in range(1, n):
-            if abs(base["pl"][l] - ref["ploss"][l]) > TOL_AC or abs(base["ql"][l] - ref["qloss"][l]) > TOL_AC:
-                viols.append(("ac.loss-value", f"line L{l}: computed loss {base['pl'][l]:.9g} + j{base['ql'][l]:.9g} pu, r|I|^2 + jx|I|^2 of the independent solution {ref['ploss'][l]:.9g} + j{ref['qloss'][l]:.9g}"))
+            if abs(conv["pl"][l] - ref["ploss"][l]) > TOL_AC or abs(conv["ql"][l] - ref["qloss"][l]) > TOL_AC:
+                viols.append(("ac.loss-value", f"line L{l}: converged loss {conv['pl'][l]:.10g} + j{conv['ql'][l]:.10g} pu, r|I|^2 + jx|I|^2 of the independent solution {ref['ploss'][l]:.10g} + j{ref['qloss'][l]:.10g}"))
                 break
-        # reference-bus injection from the line flows (Line.get_line_load) = load - production + losses
+        # (ii) the five sweeps the simulator runs are close to that solution
+        for i in range(n):
+            if abs(base["vm"][i] - abs(ref["V"][i])) > TOL_5 or abs(base["va"][i] - cmath.phase(ref["V"][i])) > TOL_5:
+                viols.append(("ac.sweeps5", f"bus B{i}: voltage after the simulator's 5 sweeps {base['vm'][i]:.9f} pu / {base['va'][i]:.9f} rad, independent complex solution {abs(ref['V'][i]):.9f} / {cmath.phase(ref['V'][i]):.9f} (reference bus B{s}, lowest voltage {vmin:.3f})"))
+                break
+        for l in range(1, n):
+            if abs(base["pl"][l] - ref["ploss"][l]) > TOL_5 or abs(base["ql"][l] - ref["qloss"][l]) > TOL_5:
+                viols.append(("ac.sweeps5-loss", f"line L{l}: loss after 5 sweeps {base['pl'][l]:.9g} + j{base['ql'][l]:.9g} pu, independent solution {ref['ploss'][l]:.9g} + j{ref['qloss'][l]:.9g}"))
+                break
+        # reference-bus injection from the line flows (Line.get_line_load) of the converged solution = load - production + losses
         inj_p = inj_q = 0.0
         for l in range(1, n):
-            pf, qf, pt, qt = lines[l].get_line_load()
-            if lines[l].fbus is buses[s]:
+            pf, qf, pt, qt = lc[l].get_line_load()
+            if lc[l].fbus is bc[s]:
                 inj_p += pf; inj_q += qf
-            elif lines[l].tbus is buses[s]:
+            elif lc[l].tbus is bc[s]:
                 inj_p += pt; inj_q += qt
         net_p = sum(case["p"]) - sum(case["pg"]); net_q = sum(case["q"]) - sum(case["qg"])
         own_p = case["p"][s] - case["pg"][s]; own_q = case["q"][s] - case["qg"][s]
-        if abs(inj_p + own_p - (net_p + sum(base["pl"]))) > 10 * TOL_AC or abs(inj_q + own_q - (net_q + sum(base["ql"]))) > 10 * TOL_AC:
-            viols.append(("ac.balance", f"reference bus B{s}: injection {inj_p + own_p:.9g} + j{inj_q + own_q:.9g} pu, load - production + losses = {net_p + sum(base['pl']):.9g} + j{net_q + sum(base['ql']):.9g}"))
+        if abs(inj_p + own_p - (net_p + sum(conv["pl"]))) > 100 * TOL_AC or abs(inj_q + own_q - (net_q + sum(conv["ql"]))) > 100 * TOL_AC:
+            viols.append(("ac.balance", f"reference bus B{s}: injection {inj_p + own_p:.9g} + j{inj_q + own_q:.9g} pu, load - production + losses = {net_p + sum(conv['pl']):.9g} + j{net_q + sum(conv['ql']):.9g}"))
         if abs(buses[s].p_load_downstream - net_p) > 1e-9 or abs(buses[s].q_load_downstream - net_q) > 1e-9:
             viols.append(("ac.downstream", f"reference bus B{s}: accumulated downstream load {buses[s].p_load_downstream} + j{buses[s].q_load_downstream}, total load - production {net_p} + j{net_q}"))
     for l in range(1, n):
@@ -233,7 +248,7 @@ def handler(case):
     if regime:
         run_bfs_load_flow(ss)
         d = maxdiff(base, result(buses, lines))
-        if d > TOL_AC:
+        if d > TOL_5:
             viols.append(("meta.repeat-warm", f"calculation repeated from the previous solution moves the result by {d:.3g} pu"))
     maxdeg = max(sum(1 for v in range(n) if par.get(v) is not None and par[v][0] == u) for u in range(n))
     sig = (n, min(maxdeg, 4), s == 0, any(x > 0 for x in case["pg"]), regime, None if vmin is None else round(vmin, 1), bool(case.get("flip")), case.get("reroot") is not None)
